@@ -90,6 +90,12 @@ class Automaton(object):
                                  (2, False): 'unsigned short'}[(n, signed)])
         t = self.state0.canon(mem.load_scalar(self.state0, o, C(off), ty))
         if not is_const(t):
+            from ..terms import UNINIT
+            from ..facts import Defect
+            raw = mem.load_scalar(self.state0, o, C(off), ty)
+            if raw == UNINIT or (raw[0] == 'cat' and UNINIT in raw[1]) or 'uninit' in short(t):
+                raise Defect('ctor|%s|uninit|%d' % (self.ctor, off), '%s leaves %d byte(s) at offset %d of the automaton it returns uninitialised (a state timeout / table '
+                             'field keeps whatever the allocator returned): every later step reads it' % (self.ctor, n, off), function=self.ctor)
             raise AnalysisBroken('%s: table cell at offset %d is not a constant (%s)' % (self.ctor, off, short(t)))
         return t[1]
 
